@@ -84,6 +84,7 @@ class TLCResult:
 
 
 _RE_STATES = re.compile(r"(\d+) states generated, (\d+) distinct states found")
+_RE_SIMSTATES = re.compile(r"The number of states generated: (\d+)")
 _RE_DEPTH = re.compile(r"depth of the complete state graph search is (\d+)")
 _RE_VIOL = re.compile(r"Error: Invariant (\S+) is violated")
 _RE_APROP = re.compile(r"Error: Action property (\S+) is violated")
@@ -149,6 +150,9 @@ def run_tlc(
         m = _RE_STATES.search(line)
         if m:
             r.generated, r.distinct = int(m.group(1)), int(m.group(2))
+        m = _RE_SIMSTATES.search(line)
+        if m and simulate:
+            r.generated = r.distinct = int(m.group(1))
         m = _RE_DEPTH.search(line)
         if m:
             r.depth = int(m.group(1))
